@@ -193,7 +193,11 @@ def run_config(cfg, e):
                     if not isinstance(v, core.Sym) and v != v:
                         continue
                     want = ite(ds.sc[i] == cl, v, want)
-                obl.append((_close(sdep.a[i], want) if not isinstance(want, core.Sym) else sdep.a[i] == want,
+                got = sdep.a[i]
+                if not isinstance(got, core.Sym) and got != got:
+                    obl.append((False, 'spikes.depths[%d] is NaN although its cluster has a depth' % i))
+                    continue
+                obl.append((_close(got, want) if not isinstance(want, core.Sym) else got == want,
                             'spikes.depths[%d] is not the depth of its cluster' % i))
         else:
             gd = snp.asarray(m.get_depths()).a.tolist()
@@ -275,6 +279,12 @@ def replay(case):
                     return 'empty cluster %d: depth %s duration %s' % (cl, cdep[cl], cdur[cl])
             elif abs(cdep[cl] - pos[int(cch[cl]), 1]) > 1e-9:
                 return 'clusters.depths[%d] = %s, depth of its peak channel %d is %s' % (cl, cdep[cl], cch[cl], pos[int(cch[cl]), 1])
+        sdep = rc.load('spikes.depths')
+        if m.sparse_features is None:
+            for i in range(ns):
+                w = cdep[sc[i]]
+                if np.isnan(sdep[i]) or abs(sdep[i] - w) > 1e-9:
+                    return 'spikes.depths[%d] = %s, the depth of its cluster %d is %s' % (i, sdep[i], sc[i], w)
         return None
     finally:
         rc.close()
